@@ -421,3 +421,52 @@ def write_evidence(ctx, proof, violations, extra_cov=None, assumptions=None):
     with open(os.path.join(d, ctx.prop + ".json"), "w") as f:
         json.dump(ev, f, indent=1, sort_keys=True)
         f.write("\n")
+
+# ----------------------------------------------------------------------------- helpers for the `open` command
+
+def hexs(s):
+    return s.encode("utf-8").hex()
+
+def unhexs(h):
+    return bytes.fromhex(h).decode("utf-8", "replace")
+
+def parse_range(txt):
+    """'R[s0,s1,e0,e1|c,c/c,c]' -> (start, end, rows of canonical cell strings); 'R[-]' -> None;
+    anything else (err:…, panic) -> the text itself"""
+    if txt == "R[-]":
+        return None
+    if not (txt.startswith("R[") and txt.endswith("]")):
+        return txt
+    head, body = txt[2:-1].split("|", 1)
+    a, b, c, d = (int(x) for x in head.split(","))
+    rows = [row.split(",") for row in body.split("/")]
+    return ((a, b), (c, d), rows)
+
+def range_cells(pr, empty="E"):
+    """non-empty cells of a parsed range as {(row, col): cell}"""
+    out = {}
+    if pr is None or isinstance(pr, str):
+        return out
+    (sr, sc), _, rows = pr
+    for i, row in enumerate(rows):
+        for j, v in enumerate(row):
+            if v != empty:
+                out[(sr + i, sc + j)] = v
+    return out
+
+FIXTURE_DIR = "/repo/tests"
+def fixtures(exts):
+    out = []
+    for f in sorted(os.listdir(FIXTURE_DIR)):
+        e = f.rsplit(".", 1)[-1].lower()
+        if e in exts:
+            out.append((e, os.path.join(FIXTURE_DIR, f)))
+    return out
+
+def fmt_of_ext(e):
+    return {"xlsx": "xlsx", "xlsm": "xlsx", "xlam": "xlsx", "xlsb": "xlsb", "xls": "xls", "xla": "xls", "ods": "ods"}.get(e)
+
+def tmpdir(ctx):
+    d = os.path.join(CACHE, "tmp", "%s-%d" % (ctx.prop, os.getpid()))
+    os.makedirs(d, exist_ok=True)
+    return d
